@@ -170,6 +170,10 @@ def cp_oracle(ctx, case, limit=200000):
         return None
     cells = case["cp"]
     total = sum(x for _, x in cells)
+    if case.get("cp_first_call") is not None and case["cp_first_call"] != cells:
+        ctx.violation("cp-changes-on-second-call", "get_critical_path() returned %s on the first call and %s on the second (text report vs machine-readable output)"
+                      % (case["cp_first_call"], cells),
+                      {"isa": case["isa"], "text": case["text"], "flagdeps": case["flagdeps"], "db": case.get("db"), "origin": case.get("origin")})
     rep = {"isa": case["isa"], "text": case["text"], "flagdeps": case["flagdeps"], "db": case.get("db"), "origin": case.get("origin")}
     if total < best[0] - 1e-9:
         ctx.violation("cp-shorter-than-longest-chain", "reported critical path %s but the chain %s has length %s" % (total, best[1], best[0]), rep)
